@@ -12,7 +12,9 @@ interleaving of their store operations) and speaks about the next action / about
 handler.  Since every prefix of a history is a history, this covers every position of every run.
 
 Vocabulary (all defined in Lemmas/TPServer.lean):
-  `Issued h tid ps us`     some `init` on ticket `good tid` (one that opens under the service key)
+  `sealer tid`, `opens v t` several services may share one store; the ticket atom `tid` is sealed under the
+                           key of service `sealer tid`; `opens v t` = `DischargeTicket` with service `v`'s key
+  `Issued h tid ps us`     an `init` at service `sealer tid` on ticket `good tid` (so it opened)
                            answered 201 with the fresh secrets `ps` (poll) and `us` (user)
   `lastDecision ps us h`   the latest successful Discharge*/Abort* on that flow, through either secret
   `Collected h ps`         some poll with `ps` handed out the stored answer
@@ -31,6 +33,8 @@ Trusted / idealised here (besides the shared base):
   whose ticket it carries is C04/C05; `Macaroon.Add`'s de-duplication of caveats is modelled;
 * the LRU's own locking and each record's RWMutex: every store operation is atomic, except that
   `DeleteByPollSecret` is split into its lookup and its removals; eviction is arbitrary;
+* services are named by naturals and ticket atoms are partitioned by the service whose key seals
+  them (`sealer id = id % 2`: services 0 and 1; any other service opens nothing);
 * the application calls exactly one responder per init request; which caveat lists
   `Macaroon.Add` refuses is abstracted to a predicate on caveat ids (`refuses`: id 0 is refused).
 The correspondence (family `tp`) ties `step`, `micro` and the schedule semantics to the real
@@ -43,38 +47,74 @@ open Macaroon.TP
 
 /-! ### handler-level histories -/
 
-/-- A discharge leaves the service only (a) as the immediate answer of an `init` on a ticket that
-opened, for that very ticket with the caveats the application passed, or (b) from a poll with the
-poll secret of a flow that an `init` on that ticket started, when the latest SUCCESSFUL decision on
-that very flow (`lastDecision` counts only calls that returned no error) was an approval with
-exactly these caveats.  In both cases the caveat list is one `Macaroon.Add` accepts as a whole
-(`refuses cs = false`): a discharge never carries a part of what the application passed. -/
+/-- A discharge leaves a service only (a) as the immediate answer of an `init` at the service whose
+key opens the ticket, for that very ticket with the caveats the application passed, or (b) from a
+poll AT THAT SERVICE with the poll secret of a flow that an `init` on that ticket started, when the
+latest SUCCESSFUL decision on that very flow (`lastDecision` counts only calls that returned no
+error) was an approval with exactly these caveats.  In both cases the caveat list is one
+`Macaroon.Add` accepts as a whole (`refuses cs = false`): a discharge never carries a part of what
+the application passed. -/
 theorem discharge_only_after_approval (as : List Action) (a : Action) (d : Discharge)
     (hd : (step (exec as).1 a).2.discharge? = some d) :
-    (∃ cs, a = .init (.good d.ticket) (.immediate cs) ∧ refuses cs = false ∧ d = mkDischarge d.ticket cs) ∨
-    (∃ ps us cs, a = .poll ps ∧ Issued (exec as).2 d.ticket ps us ∧
+    (∃ cs, a = .init (sealer d.ticket) (.good d.ticket) (.immediate cs) ∧ refuses cs = false ∧
+      d = mkDischarge d.ticket cs) ∨
+    (∃ ps us cs, a = .poll (sealer d.ticket) ps ∧ Issued (exec as).2 d.ticket ps us ∧
       lastDecision ps us (exec as).2 = some (.approve cs) ∧ refuses cs = false ∧
       d = mkDischarge d.ticket cs) :=
   (exec_inv as).discharge_justified (exec_dec_ok as) hd
 
+/-- "Only for a ticket the service could open": whatever request hands out a discharge was
+addressed to the service whose key opens the discharge's ticket. -/
+theorem discharge_only_from_opening_service (as : List Action) (a : Action) (d : Discharge)
+    (hd : (step (exec as).1 a).2.discharge? = some d) : a.svc? = some (sealer d.ticket) := by
+  rcases discharge_only_after_approval as a d hd with ⟨cs, rfl, _⟩ | ⟨ps, us, cs, rfl, _⟩ <;> rfl
+
+/-- In ANY store state: a poll at a service whose key does not open the flow's stored ticket answers
+500 — whether the flow is pending or decided — and changes nothing (the flow stays for its own
+service's client to collect). -/
+theorem foreign_poll_changes_nothing (st : Store) (v s : Nat) (sd : Data)
+    (hg : st.get (pollKey s) = some sd) (ho : opens v sd.ticket = none) :
+    step st (.poll v s) = (st, .http 500 .internal false) :=
+  step_foreign_poll hg ho
+
+/-- … the same for the user page (the application is not invoked) and for `Discharge*` -/
+theorem foreign_user_visit_changes_nothing (st : Store) (v s : Nat) (sd : Data)
+    (hg : st.get (userKey s) = some sd) (ho : opens v sd.ticket = none) :
+    step st (.userVisit v s) = (st, .http 500 .internal false) :=
+  step_foreign_userVisit hg ho
+
+theorem foreign_approval_changes_nothing (st : Store) (v : Nat) (r : Role) (s : Nat) (sd : Data) (cs : List Nat)
+    (hg : st.get ⟨r, s⟩ = some sd) (ho : opens v sd.ticket = none) :
+    step st (.decide v r s (.approve cs)) = (st, .api false) :=
+  step_foreign_approval cs hg ho
+
+/-- … and, on reachable states: a live flow (issued, poll key not evicted, not collected) polled at
+any service other than the one that opened its ticket answers 500 and stays, decided or not. -/
+theorem foreign_poll_on_issued_flow (as : List Action) (tid ps us v : Nat)
+    (hi : Issued (exec as).2 tid ps us) (hne : ¬ Evicted (exec as).2 (pollKey ps))
+    (hnc : ¬ Collected (exec as).2 ps) (hv : sealer tid ≠ v) :
+    step (exec as).1 (.poll v ps) = ((exec as).1, .http 500 .internal false) := by
+  obtain ⟨a, r, _, _, hg, ht, _⟩ := (exec_inv as).poll_live hi hne hnc
+  exact step_foreign_poll hg (by rw [ht]; exact opens_none_of_ne hv)
+
 /-- An approval whose caveat list `Macaroon.Add` refuses (id 0 in the list: an attestation inside a
 wrapper caveat, a second third-party caveat for one location, an unencodable caveat) returns an
-error and changes nothing — in ANY store state, through either secret: the flow stays undecided
-or keeps its earlier decision. -/
-theorem refused_approval_changes_nothing (st : Store) (r : Role) (s : Nat) (cs : List Nat)
-    (h : refuses cs = true) : step st (.decide r s (.approve cs)) = (st, .api false) :=
-  step_refused_approval st r s h
+error and changes nothing — in ANY store state, at any service, through either secret: the flow
+stays undecided or keeps its earlier decision. -/
+theorem refused_approval_changes_nothing (st : Store) (v : Nat) (r : Role) (s : Nat) (cs : List Nat)
+    (h : refuses cs = true) : step st (.decide v r s (.approve cs)) = (st, .api false) :=
+  step_refused_approval st v r s h
 
 /-- … and the immediate mode with such a list answers 500 without a discharge, nothing stored -/
 theorem refused_immediate_no_discharge (st : Store) (tid : Nat) (cs : List Nat) (h : refuses cs = true) :
-    step st (.init (.good tid) (.immediate cs)) = (st, .http 500 .internal true) :=
+    step st (.init (sealer tid) (.good tid) (.immediate cs)) = (st, .http 500 .internal true) :=
   step_refused_immediate st tid h
 
 /-- every decision call that returned no error in a history was an abort or an approval whose
 caveats `Add` accepts -/
-theorem recorded_approvals_are_accepted (as : List Action) (r : Role) (s : Nat) (cs : List Nat)
-    (h : (Action.decide r s (.approve cs), Out.api true) ∈ (exec as).2) : refuses cs = false := by
-  simpa [Decision.ok] using exec_dec_ok as r s _ h
+theorem recorded_approvals_are_accepted (as : List Action) (v : Nat) (r : Role) (s : Nat) (cs : List Nat)
+    (h : (Action.decide v r s (.approve cs), Out.api true) ∈ (exec as).2) : refuses cs = false := by
+  simpa [Decision.ok] using exec_dec_ok as v r s _ h
 
 /-- what "the latest decision was `d`" means, spelled out: some earlier event is a successful
 decision `d` on the flow and no event after it is a successful decision on the flow -/
@@ -113,20 +153,21 @@ theorem lastDecision_eq_some_iff (ps us : Nat) (h : Hist) (d : Decision) :
           simp at he
           exact ⟨post, e, pre, he.2, hde, fun z hz => hpost z (by simp [hz])⟩
 
-/-- Before any decision on the flow (and unless the LRU dropped the poll key) a poll answers
-202 "not ready", runs no application code, and the store is unchanged: the flow stays. -/
+/-- Before any decision on the flow (and unless the LRU dropped the poll key) a poll at the flow's
+own service answers 202 "not ready", runs no application code, and the store is unchanged. -/
 theorem not_ready_before_decision (as : List Action) (tid ps us : Nat)
     (hi : Issued (exec as).2 tid ps us) (hne : ¬ Evicted (exec as).2 (pollKey ps))
     (hnd : lastDecision ps us (exec as).2 = none) :
-    step (exec as).1 (.poll ps) = ((exec as).1, .http 202 .notReady false) :=
+    step (exec as).1 (.poll (sealer tid) ps) = ((exec as).1, .http 202 .notReady false) :=
   (exec_inv as).not_ready hi hne hnd
 
-/-- After an abort (the latest decision on the flow) the first poll delivers the application's
-error message — provided the answer was not collected before and the poll key not evicted. -/
+/-- After an abort (the latest decision on the flow) the first poll at the flow's own service
+delivers the application's error message — provided the answer was not collected before and the
+poll key not evicted. -/
 theorem abort_delivers_error (as : List Action) (tid ps us msg : Nat)
     (hi : Issued (exec as).2 tid ps us) (hne : ¬ Evicted (exec as).2 (pollKey ps))
     (hnc : ¬ Collected (exec as).2 ps) (hd : lastDecision ps us (exec as).2 = some (.abort msg)) :
-    (step (exec as).1 (.poll ps)).2 = .http 200 (.error msg) false := by
+    (step (exec as).1 (.poll (sealer tid) ps)).2 = .http 200 (.error msg) false := by
   obtain ⟨rsp, h1, h2⟩ := (exec_inv as).poll_delivers hi hne hnc hd
   simp [respOf] at h1; subst h1; exact h2
 
@@ -135,12 +176,13 @@ approved caveats. -/
 theorem approve_delivers_discharge (as : List Action) (tid ps us : Nat) (cs : List Nat)
     (hi : Issued (exec as).2 tid ps us) (hne : ¬ Evicted (exec as).2 (pollKey ps))
     (hnc : ¬ Collected (exec as).2 ps) (hd : lastDecision ps us (exec as).2 = some (.approve cs)) :
-    (step (exec as).1 (.poll ps)).2 = .http 200 (.discharge (mkDischarge tid cs)) false := by
+    (step (exec as).1 (.poll (sealer tid) ps)).2 = .http 200 (.discharge (mkDischarge tid cs)) false := by
   obtain ⟨rsp, h1, h2⟩ := (exec_inv as).poll_delivers hi hne hnc hd
   simp [respOf] at h1; subst h1; exact h2
 
 /-- Once a poll has delivered (discharge or error), every later poll, user visit, approval or abort
-that presents the flow's poll secret or user secret gets the not-found answer, and nothing changes. -/
+— at any service — that presents the flow's poll secret or user secret gets the not-found answer,
+and nothing changes. -/
 theorem gone_after_collection (as : List Action) (tid ps us : Nat) (a : Action) (k : Key)
     (hi : Issued (exec as).2 tid ps us) (hc : Collected (exec as).2 ps)
     (hk : a.key? = some k) (hkk : k = pollKey ps ∨ k = userKey us) :
@@ -171,42 +213,62 @@ theorem not_found_is_silent (a : Action) :
     (a.notFoundOut = .http 404 .notFound false ∨ a.notFoundOut = .api false) := by
   cases a <;> simp [Action.notFoundOut, outNotFound, Out.appInvoked, Out.discharge?]
 
-/-- A ticket the service key does not open: 500 before the application runs, nothing stored
-(in any store state, whatever the application would have done). -/
-theorem bad_ticket_short_circuits (st : Store) (n : Nat) (m : Mode) :
-    step st (.init (.bad n) m) = (st, .http 500 .internal false) := rfl
+/-- A ticket the addressed service's key does not open (garbage, tampered, or sealed for another
+service): 500 before the application runs, nothing stored (in any store state, whatever the
+application would have done). -/
+theorem bad_ticket_short_circuits (st : Store) (v : Nat) (t : Ticket) (m : Mode) (ho : opens v t = none) :
+    step st (.init v t m) = (st, .http 500 .internal false) :=
+  step_foreign_init st m ho
 
 /-! ### every interleaving of store operations -/
 
-/-- Whatever the schedule: a handler that returned a discharge `d` is an `init` on ticket
-`d.ticket` answering immediately with these caveats, or a poll whose `Get` happened when — in the
-trace `pre` up to that `Get` — the flow had been inserted by an `init` on ticket `d.ticket` and
-the last successful `Update` on the flow was an approval with exactly these caveats. -/
+/-- Whatever the schedule: a handler that returned a discharge `d` is an `init` at the service that
+opens ticket `d.ticket`, answering immediately with these caveats, or a poll AT THAT SERVICE whose
+`Get` happened when — in the trace `pre` up to that `Get` — the flow had been inserted by an `init`
+on ticket `d.ticket` and the last successful `Update` on the flow was an approval with exactly
+these caveats. -/
 theorem il_discharge_only_after_approval (sched : List Sched) (i : Nat) (a : Action) (o : Out) (d : Discharge)
     (hret : Ev.returned i a o ∈ (Sys.run sched).2) (hd : o.discharge? = some d) :
-    (∃ cs, a = .init (.good d.ticket) (.immediate cs) ∧ refuses cs = false ∧ d = mkDischarge d.ticket cs) ∨
-    (∃ ps us cs pre data, a = .poll ps ∧
+    (∃ cs, a = .init (sealer d.ticket) (.good d.ticket) (.immediate cs) ∧ refuses cs = false ∧
+      d = mkDischarge d.ticket cs) ∨
+    (∃ ps us cs pre data, a = .poll (sealer d.ticket) ps ∧
       (Ev.op i a (.got (pollKey ps) (some data)) :: pre) <:+ (Sys.run sched).2 ∧
       InsertedT pre d.ticket ps us ∧ lastDecisionT ps us pre = some (.approve cs) ∧ refuses cs = false ∧
       d = mkDischarge d.ticket cs) :=
   ((run_inv sched).t.rets i a o hret).1 d hd
 
+/-- … so, whatever the schedule, a discharge is only ever returned by a handler of the service
+whose key opens its ticket -/
+theorem il_discharge_only_from_opening_service (sched : List Sched) (i : Nat) (a : Action) (o : Out)
+    (d : Discharge) (hret : Ev.returned i a o ∈ (Sys.run sched).2) (hd : o.discharge? = some d) :
+    a.svc? = some (sealer d.ticket) := by
+  rcases il_discharge_only_after_approval sched i a o d hret hd with
+    ⟨cs, rfl, _⟩ | ⟨ps, us, cs, pre, data, rfl, _⟩ <;> rfl
+
+/-- In any store state the poll handler of a service that cannot open the stored ticket returns 500
+right after its `Get`: it performs no other store operation, so under every interleaving it
+changes nothing. -/
+theorem il_foreign_poll_changes_nothing (st : Store) (v s : Nat) (sd : Data)
+    (hg : st.get (pollKey s) = some sd) (ho : opens v sd.ticket = none) :
+    micro st (.poll v s) .start = (st, .done (.http 500 .internal false), [.got (pollKey s) (some sd)]) :=
+  micro_foreign_poll hg ho
+
 /-- Whatever the schedule: a `Discharge*` call whose caveat list `Add` refuses returns an error,
 never performs a successful `Update` (so it changes no record), and such a list is never the
 latest decision of any flow at any time. -/
-theorem il_refused_approval_changes_nothing (sched : List Sched) (r : Role) (s : Nat) (cs : List Nat)
+theorem il_refused_approval_changes_nothing (sched : List Sched) (v : Nat) (r : Role) (s : Nat) (cs : List Nat)
     (h : refuses cs = true) :
-    (∀ i o, Ev.returned i (.decide r s (.approve cs)) o ∈ (Sys.run sched).2 → o = .api false) ∧
-    (∀ i k nd, Ev.op i (.decide r s (.approve cs)) (.updated k nd true) ∉ (Sys.run sched).2) ∧
+    (∀ i o, Ev.returned i (.decide v r s (.approve cs)) o ∈ (Sys.run sched).2 → o = .api false) ∧
+    (∀ i k nd, Ev.op i (.decide v r s (.approve cs)) (.updated k nd true) ∉ (Sys.run sched).2) ∧
     (∀ ps us, lastDecisionT ps us (Sys.run sched).2 ≠ some (.approve cs)) := by
   have inv := run_inv sched
-  refine ⟨fun i o hret => (inv.t.rets _ _ _ hret).2.2.2 r s cs rfl h, ?_, ?_⟩
+  refine ⟨fun i o hret => (inv.t.rets _ _ _ hret).2.2.2 v r s cs rfl h, ?_, ?_⟩
   · intro i k nd hm
-    have := inv.s.upd_ok _ _ _ _ _ _ hm
+    have := inv.s.upd_ok _ _ _ _ _ _ _ hm
     simp [Decision.ok, h] at this
   · intro ps us hl
-    obtain ⟨i, r', s', k, nd, hm⟩ := lastDecisionT_mem hl
-    have := inv.s.upd_ok _ _ _ _ _ _ hm
+    obtain ⟨i, v', r', s', k, nd, hm⟩ := lastDecisionT_mem hl
+    have := inv.s.upd_ok _ _ _ _ _ _ _ hm
     simp [Decision.ok, h] at this
 
 /-- Whatever the schedule: a handler presented with a key that no `Insert` ever filed returns the
@@ -233,11 +295,11 @@ theorem il_cross_used_not_inserted (sched : List Sched) (tid ps us : Nat)
     simp at hk; omega
 
 /-- Happens-before form of "gone after collection", for every schedule `s0 ++ s1`: once a
-delivering poll has RETURNED (during `s0`), every handler that STARTS later (its index is at least
-the number of handlers spawned during `s0`) and presents the flow's poll or user secret returns
-the not-found answer. -/
-theorem il_gone_after_collection_hb (s0 s1 : List Sched) (i ps us tid : Nat) (o : Out)
-    (hret : Ev.returned i (.poll ps) o ∈ (Sys.run s0).2) (hdel : o.delivers = true)
+delivering poll has RETURNED (during `s0`), every handler — of any service — that STARTS later (its
+index is at least the number of handlers spawned during `s0`) and presents the flow's poll or user
+secret returns the not-found answer. -/
+theorem il_gone_after_collection_hb (s0 s1 : List Sched) (i v ps us tid : Nat) (o : Out)
+    (hret : Ev.returned i (.poll v ps) o ∈ (Sys.run s0).2) (hdel : o.delivers = true)
     (hins : InsertedT (Sys.run s0).2 tid ps us)
     (j : Nat) (a : Action) (o' : Out) (hj : (Sys.run s0).1.threads.length ≤ j)
     (hret' : Ev.returned j a o' ∈ (Sys.run (s0 ++ s1)).2)
@@ -261,53 +323,72 @@ theorem racing_polls_both_answered :
        .done (.http 200 (.discharge ⟨7, [3]⟩) false), .done (.http 200 (.discharge ⟨7, [3]⟩) false)] := by
   decide
 
-/-! ### non-vacuity: the hypotheses are satisfiable and the conclusions are not trivial -/
+/-! ### non-vacuity: the hypotheses are satisfiable and the conclusions are not trivial
+(ticket 7 is sealed for service 1, ticket 6 for service 0) -/
 
 /-- a history on which (b) of `discharge_only_after_approval` fires -/
-example : (step (exec [.init (.good 7) .poll, .approvePoll 1 [3, 3, 4]]).1 (.poll 1)).2.discharge? = some ⟨7, [3, 4]⟩ := by
-  decide
+example : (step (exec [.init 1 (.good 7) .poll, .approvePoll 1 1 [3, 3, 4]]).1 (.poll 1 1)).2.discharge? =
+    some ⟨7, [3, 4]⟩ := by decide
+
+/-- two services over one store: service 0 cannot start, approve or collect service 1's flow —
+pending or decided, it answers 500 and the flow stays — but its `Abort*` (which never opens the
+ticket) is recorded; service 1's client collects once; afterwards both answer not found -/
+example : outputs [.init 0 (.good 7) .poll, .init 1 (.good 7) .poll, .poll 0 1, .approvePoll 0 1 [3],
+    .approvePoll 1 1 [3], .poll 0 1, .userVisit 0 0, .poll 1 1, .poll 0 1, .poll 1 1] =
+    [.http 500 .internal false, .http 201 (.pollUrl 1 0) true, .http 500 .internal false, .api false,
+     .api true, .http 500 .internal false, .http 500 .internal false,
+     .http 200 (.discharge ⟨7, [3]⟩) false, .http 404 .notFound false, .http 404 .notFound false] := by decide
+
+example : outputs [.init 1 (.good 7) .poll, .abortPoll 0 1 4, .poll 0 1, .poll 1 1] =
+    [.http 201 (.pollUrl 1 0) true, .api true, .http 500 .internal false, .http 200 (.error 4) false] := by decide
 
 /-- a refused caveat (id 0) anywhere in the list: the approval errs, the poll still answers not ready,
 an earlier approval stays in force, the immediate mode answers 500 -/
-example : outputs [.init (.good 7) .poll, .approvePoll 1 [3, 0, 4], .poll 1, .approveUser 0 [5],
-    .approvePoll 1 [0], .poll 1, .init (.good 7) (.immediate [4, 0])] =
+example : outputs [.init 1 (.good 7) .poll, .approvePoll 1 1 [3, 0, 4], .poll 1 1, .approveUser 1 0 [5],
+    .approvePoll 1 1 [0], .poll 1 1, .init 1 (.good 7) (.immediate [4, 0])] =
     [.http 201 (.pollUrl 1 0) true, .api false, .http 202 .notReady false, .api true,
      .api false, .http 200 (.discharge ⟨7, [5]⟩) false, .http 500 .internal true] := by decide
 
 /-- … and one on which a later abort overrides the approval: no discharge -/
-example : (step (exec [.init (.good 7) .poll, .approvePoll 1 [3], .abortUser 0 5]).1 (.poll 1)).2 =
+example : (step (exec [.init 1 (.good 7) .poll, .approvePoll 1 1 [3], .abortUser 1 0 5]).1 (.poll 1 1)).2 =
     .http 200 (.error 5) false := by decide
 
 /-- the hypotheses of `not_ready_before_decision` hold on a one-flow history -/
-example : step (exec [.init (.good 7) .userInteractive]).1 (.poll 1) =
-    ((exec [.init (.good 7) .userInteractive]).1, .http 202 .notReady false) :=
+example : step (exec [.init 1 (.good 7) .userInteractive]).1 (.poll 1 1) =
+    ((exec [.init 1 (.good 7) .userInteractive]).1, .http 202 .notReady false) :=
   not_ready_before_decision _ 7 1 0 ⟨_, List.mem_cons_self, .userInteractive, _, rfl, .inr rfl⟩
-    (by rintro ⟨o, ho⟩; simp [exec, stepH, step, initGood] at ho) (by decide)
+    (by rintro ⟨o, ho⟩; simp [exec, stepH, step, opens, sealer, initGood] at ho) (by decide)
 
-example : Collected (exec [.init (.good 7) .poll, .abortPoll 1 2, .poll 1]).2 1 :=
-  ⟨.http 200 (.error 2) false, by decide, rfl⟩
+example : Collected (exec [.init 1 (.good 7) .poll, .abortPoll 1 1 2, .poll 1 1]).2 1 :=
+  ⟨1, .http 200 (.error 2) false, by decide, rfl⟩
 
 /-- after collection: the second poll, the user page and a late approval all answer not found -/
-example : (outputs [.init (.good 7) .poll, .abortPoll 1 2, .poll 1, .poll 1, .userVisit 0, .approveUser 0 []]).drop 3 =
+example : (outputs [.init 1 (.good 7) .poll, .abortPoll 1 1 2, .poll 1 1, .poll 1 1, .userVisit 1 0,
+    .approveUser 1 0 []]).drop 3 =
     [.http 404 .notFound false, .http 404 .notFound false, .api false] := by decide
 
 /-- a schedule on which the poll case of `il_discharge_only_after_approval` fires -/
-example : Ev.returned 2 (.poll 1) (.http 200 (.discharge ⟨7, [3]⟩) false) ∈
-    (Sys.run [.spawn (.init (.good 7) .poll), .step 0, .spawn (.approvePoll 1 [3]), .step 1, .step 1,
-      .spawn (.poll 1), .step 2, .step 2, .step 2]).2 := by decide
+example : Ev.returned 2 (.poll 1 1) (.http 200 (.discharge ⟨7, [3]⟩) false) ∈
+    (Sys.run [.spawn (.init 1 (.good 7) .poll), .step 0, .spawn (.approvePoll 1 1 [3]), .step 1, .step 1,
+      .spawn (.poll 1 1), .step 2, .step 2, .step 2]).2 := by decide
 
 /-- … a handler started after that poll returned finds nothing (`il_gone_after_collection_hb`),
 and so does a guessed secret (`il_unknown_secret_not_found`) -/
-example : Ev.returned 3 (.userVisit 0) (.http 404 .notFound false) ∈
-    (Sys.run [.spawn (.init (.good 7) .poll), .step 0, .spawn (.approvePoll 1 [3]), .step 1, .step 1,
-      .spawn (.poll 1), .step 2, .step 2, .step 2, .spawn (.userVisit 0), .step 3]).2 := by decide
+example : Ev.returned 3 (.userVisit 0 0) (.http 404 .notFound false) ∈
+    (Sys.run [.spawn (.init 1 (.good 7) .poll), .step 0, .spawn (.approvePoll 1 1 [3]), .step 1, .step 1,
+      .spawn (.poll 1 1), .step 2, .step 2, .step 2, .spawn (.userVisit 0 0), .step 3]).2 := by decide
 
-example : Ev.returned 0 (.poll 9) (.http 404 .notFound false) ∈ (Sys.run [.spawn (.poll 9), .step 0]).2 := by
+example : Ev.returned 0 (.poll 0 9) (.http 404 .notFound false) ∈ (Sys.run [.spawn (.poll 0 9), .step 0]).2 := by
   decide
 
 end Macaroon.Props.C16
 
 #print axioms Macaroon.Props.C16.discharge_only_after_approval
+#print axioms Macaroon.Props.C16.discharge_only_from_opening_service
+#print axioms Macaroon.Props.C16.foreign_poll_changes_nothing
+#print axioms Macaroon.Props.C16.foreign_user_visit_changes_nothing
+#print axioms Macaroon.Props.C16.foreign_approval_changes_nothing
+#print axioms Macaroon.Props.C16.foreign_poll_on_issued_flow
 #print axioms Macaroon.Props.C16.refused_approval_changes_nothing
 #print axioms Macaroon.Props.C16.refused_immediate_no_discharge
 #print axioms Macaroon.Props.C16.recorded_approvals_are_accepted
@@ -321,6 +402,8 @@ end Macaroon.Props.C16
 #print axioms Macaroon.Props.C16.not_found_is_silent
 #print axioms Macaroon.Props.C16.bad_ticket_short_circuits
 #print axioms Macaroon.Props.C16.il_discharge_only_after_approval
+#print axioms Macaroon.Props.C16.il_discharge_only_from_opening_service
+#print axioms Macaroon.Props.C16.il_foreign_poll_changes_nothing
 #print axioms Macaroon.Props.C16.il_refused_approval_changes_nothing
 #print axioms Macaroon.Props.C16.il_unknown_secret_not_found
 #print axioms Macaroon.Props.C16.il_cross_used_not_inserted
